@@ -1,6 +1,6 @@
 """C05 - A* and breadth-first search return valid minimum-cost / minimum-step paths."""
 from sim.core import Violation, Inconclusive, RandomProxy, patched_random
-from sim.models import gen_graph_spec, GraphView, make_graph_mdp
+from sim.models import nested_graph_variant, gen_graph_spec, GraphView, make_graph_mdp
 from sim.refsolve import dijkstra, cost_to_go
 from sim.ctx import RunCtx, make_scheduler, gen_sched
 from sim import shrink as shr
@@ -29,12 +29,18 @@ def preload():
     import msdm.algorithms.search  # noqa
 
 
+def plain_idx(idx):
+    return idx % 4 == 0
+
+
 def gen_case(rng, tier, idx):
     u = rng.random()
     spec = gen_graph_spec(rng, big=u < 0.2, corridor=u > 0.997)
     tb = rng.choice(('lifo', 'fifo', 'random', 'random'))
     rao = rng.random() < 0.6
     cfg = dict(rep=rng.choice(REPS), heur=rng.choice(HEUR), tie=tb, rao=rao, seed=rng.choice((0, 1, 42, None)))
+    if rng.random() < 0.1 and not plain_idx(idx):
+        cfg['nest'] = rng.randrange(1000)
     if spec.get('giant'):
         cfg['heur'] = 'zero'        # integer costs beyond 2**53: only integer arithmetic is exact, so no float-valued heuristic
     plain = idx % 4 == 0
@@ -48,7 +54,7 @@ def execute(case, script=None):
     gv = GraphView(case['spec'])
     ctx = RunCtx(PROP, None)
     ctx.declare_probes('no_plan', 'start_is_goal', 'zero_cost_edge_on_path', 'two_goals_reachable', 'infinite_heuristic_seen',
-                       'self_loop_present', 'random_tie_break', 'shuffled_actions', 'big_graph', 'path_longer_than_1000_steps', 'integer_rewards', 'costs_beyond_2_53')
+                       'self_loop_present', 'random_tie_break', 'shuffled_actions', 'big_graph', 'path_longer_than_1000_steps', 'integer_rewards', 'costs_beyond_2_53', 'nested_run')
     sched = make_scheduler(case, script, ctx)
     try:
         return _execute(se, gv, case['cfg'], ctx, sched)
@@ -74,6 +80,32 @@ def _execute(se, gv, cfg, ctx, sched):
             if h[sid[s]] == INF:
                 ctx.probe('infinite_heuristic_seen')
             return -h[sid[s]]
+    if cfg.get('nest') is not None:
+        # fault F10: the k-th call of the user's heuristic runs ANOTHER search (A* or BFS, its own planner object) on another
+        # graph with the same state and action keys - a heuristic computed by searching a relaxed problem does this
+        ngv = GraphView(nested_graph_variant(gv.spec, cfg['nest']))
+        nmdp = make_graph_mdp(ngv, REPS[cfg['nest'] % len(REPS)])
+        box = dict(n=0, k=1 + cfg['nest'] % 12, busy=False)
+        inner_hv = hv
+
+        def hv(s):
+            box['n'] += 1
+            if box['n'] == box['k'] and not box['busy']:
+                box['busy'] = True
+                sched.fire('F10_nested_run')
+                ctx.probe('nested_run')
+                try:
+                    with patched_random([se], RandomProxy(sched)):
+                        if cfg['nest'] % 2:
+                            se.BreadthFirstSearch(seed=cfg['nest'], randomize_action_order=True).plan_on(nmdp)
+                        else:
+                            se.AStarSearch(heuristic_value=lambda s_: 0, seed=cfg['nest'] if (cfg['tie'] == 'random' or cfg['rao']) else None, randomize_action_order=cfg['rao'],
+                                           tie_breaking_strategy=cfg['tie']).plan_on(nmdp)
+                except (Violation, Inconclusive):
+                    raise
+                except Exception as e:
+                    raise Violation('exception', f"the search nested inside the heuristic raised {type(e).__name__}: {e}", dict(key=f"exception/nested-run/{type(e).__name__}"))
+            return inner_hv(s)
     d = dijkstra(gv)
     du = dijkstra(gv, unit=True)
     best = min([d[g] for g in gv.goals if g in d], default=None)
